@@ -15,7 +15,10 @@ package main
 //   sched/<mode>/released-out-of-order        concatenation of the released batches not sorted by timestamp
 //   sched/<mode>/not-a-permutation            EOF reached but some record missing or released twice
 //   sched/<mode>/no-eof-records-stuck         EOF not reached within 2·(#segments+#blocks)+4 Fetch calls
-//        (only for well-formed inputs: record inside its block's range, block inside its segment's range)
+//        (the three above only for well-formed inputs: record inside its block's range, block inside its segment's range)
+//   sched/<mode>/no-eof-records-stuck-ill-formed   the same for an ill-formed input (a block that reaches past the
+//        time range its segment advertises, a record outside its block's range): order and completeness presuppose
+//        well-formed input, that the search ENDS does not (Lean: fetch_always_reaches_eof)
 //   scroll/not-drop-from, head/not-take-n     output of scroll / head is not drop(from) / take(n) of the input
 //   sort-comparator/<class>                   `less` is not a strict weak order on the given records
 //        class = not-transitive-within-tolerance | not-transitive-nan | inf-not-equal-to-itself | not-a-strict-weak-order
@@ -341,7 +344,13 @@ func execC05SchedOp(a []string) Result {
 	}
 	if !wellFormed {
 		res.Tags = append(res.Tags, "ill-formed")
-		return res // the property presupposes records inside their block's range and blocks inside their segment's
+		// order and completeness presuppose records inside their block's range and blocks inside their segment's;
+		// that the search ends does not: since the repair of fetchRRCs (lastBlocks) EOF is reached for every input
+		if !eof {
+			res.Fails = append(res.Fails, PropFail{Sig: "sched/" + modeName + "/no-eof-records-stuck-ill-formed",
+				Msg: fmt.Sprintf("no EOF after %d Fetch calls; %d of %d records released", maxFetches, len(flat), len(all))})
+		}
+		return res
 	}
 	res.Tags = append(res.Tags, "well-formed")
 	// the released sequence (ties included) is a function of the data: the same segments, handed to the searcher in
@@ -531,7 +540,9 @@ func genC05Sched(r *rand.Rand, n int, tier string) []string {
 		"sched rl 1 -",
 		"sched rf 2 0-5=",
 		"sched rf 1 0-5=0:5:1,5/2-9=2:9:2,9",
-		"sched rl 2 0-5=0:5:1,5/2-9=2:9:2,9", // oldest-first: records stay in unsentRRCs, no EOF
+		"sched rl 2 0-5=0:5:1,5/2-9=2:9:2,9", // oldest-first: before the repair (lastBlocks) records stayed in unsentRRCs, no EOF
+		"sched rf 2 5-8=5:8:5,8;2:8:2,8",     // a block that reaches past the range its segment advertises: the same, newest-first
+		"sched rl 4 0-8=8:8:8;0:0:0,0,0,11",  // a record outside its block's range, oldest-first
 		"sched rf 2 0-10=0:10:1,5,10;3:7:3,7/2-9=2:9:2,9",
 		"sched rf 1 0-10=0:10:2;5:9:5,9",
 		"sched rf 4 3-3=3:3:3,3,3;3:3:3/3-3=3:3:3",
